@@ -72,12 +72,11 @@ Theorem C27_refuted_private_use :
 Proof. exact refuted_private_use. Qed.
 Print Assumptions C27_refuted_private_use.
 
-(* an escaped space at the end leaves a dangling backslash that escapes the closing quote *)
-Theorem C27_refuted_escaped_space :
-  exists lv, literal_value w_sp = Some lv /\ css_display lv = [34; 97; 92; 34] /\
-             token_denotes (css_display lv) (css_decode w_sp) = false /\ css_decode w_sp = [97; 32].
-Proof. exact refuted_escaped_space. Qed.
-Print Assumptions C27_refuted_escaped_space.
+(* the escaped-space part of F33 is fixed (6aead77): "a\ " is printed as a well-formed token denoting "a " *)
+Example C27_escaped_space_example :
+  exists lv, literal_value w_sp = Some lv /\ css_display lv = [34; 97; 92; 32; 34] /\
+             token_denotes (css_display lv) (css_decode w_sp) = true /\ css_decode w_sp = [97; 32].
+Proof. exact escaped_space_example. Qed.
 
 (* the escape of a surrogate is read as the four characters d800 instead of U+FFFD *)
 Theorem C27_refuted_invalid_code_point :
@@ -87,8 +86,7 @@ Print Assumptions C27_refuted_invalid_code_point.
 
 Theorem C27_refuted_statement : ~ C27_statement.
 Proof.
-  intros H. destruct refuted_escaped_space as (lv & A & _ & B & _).
-  destruct (H w_sp lv A) as [C _]. rewrite B in C. discriminate.
+  intros H. destruct (H w_10x _ literal_10x) as (_ & L & _). vm_compute in L. discriminate.
 Qed.
 Print Assumptions C27_refuted_statement.
 
